@@ -56,7 +56,8 @@ impl ClosedPartitionIndex {
         }
 
         // File is positioned after magic bytes
-        let (mphf, _, records_offset) = load_index_from_file(&mut file)?;
+        let (mphf, n, records_offset) = load_index_from_file(&mut file)?;
+        validate_len(&file, n, records_offset)?;
 
         Ok(ClosedPartitionIndex {
             id,
@@ -186,6 +187,29 @@ impl ClosedPartitionIndex {
         self.get_key(partition_id)
             .and_then(|key| key.map(|key| self.get_from_key(key)).transpose())
     }
+}
+
+/// The index is flushed in the background without a completion marker: a crash can leave a
+/// prefix of the file. A complete file holds all n records and the values each of them points to.
+fn validate_len(file: &File, n: u64, records_offset: u64) -> Result<(), PartitionIndexError> {
+    let file_len = file.metadata()?.len();
+    let records_len = n
+        .checked_mul(RECORD_SIZE as u64)
+        .filter(|len| records_offset.saturating_add(*len) <= file_len)
+        .ok_or(PartitionIndexError::CorruptLen)?;
+
+    let mut records = vec![0u8; records_len as usize];
+    file.read_exact_at(&mut records, records_offset)?;
+    for record in records.chunks_exact(RECORD_SIZE) {
+        let events_offset = u64::from_le_bytes(record[26..34].try_into().unwrap());
+        let events_len = u32::from_le_bytes(record[34..38].try_into().unwrap()) as u64;
+        let values_len = events_len * (SEQUENCE_SIZE + EVENTS_OFFSET_SIZE) as u64;
+        if events_offset.saturating_add(values_len) > file_len {
+            return Err(PartitionIndexError::CorruptLen);
+        }
+    }
+
+    Ok(())
 }
 
 /// Loads the MPHF-based index from a file format
